@@ -257,7 +257,9 @@ impl Scenario for Concurrent {
                     with(&s, "seed", json!(g.range(0, 1u64 << 40).to_string()))
                 })
                 .collect();
-            return json!({"specs": specs, "progress": true, "sim": gen_sim(g, 12, true)});
+            // 1 in 3 of these: one more sampler in the process whose run_progress FAILS (a user-defined chain
+            // whose state comes out one coordinate short, so that its statistics tracker refuses it)
+            return json!({"specs": specs, "progress": true, "faulty_neighbour": g.bool(1, 3), "shrink_at": g.usize(1, 6), "sim": gen_sim(g, 14, true)});
         }
         json!({"specs": specs, "sim": gen_sim(g, 8, false)})
     }
@@ -301,13 +303,34 @@ impl Scenario for Concurrent {
         }
         let cfg = sim_cfg(&params["sim"]);
         let sp = specs.clone();
+        let faulty = progress && params.get("faulty_neighbour").and_then(|v| v.as_bool()).unwrap_or(false);
+        let shrink_at = params.get("shrink_at").and_then(|v| v.as_u64()).unwrap_or(2);
+        o.count("probe_failing_neighbour_sampler", faulty as u64);
         let (rep, out) = run_sim(&cfg, move || {
+            let neighbour = if faulty {
+                Some(mcmc_sim::thread::spawn(move || {
+                    use mini_mcmc::core::ChainRunner;
+                    let mut s = crate::stubs::CountSampler::<f64>::new(2, 3);
+                    s.chains[1].shrink_at = Some(shrink_at);
+                    // fails (Err or panic): its own business; the others must not notice
+                    let _ = s.run_progress(8, 2);
+                }))
+            } else {
+                None
+            };
             let handles: Vec<_> = sp
                 .iter()
                 .cloned()
                 .map(|s| mcmc_sim::thread::spawn(move || run_spec(&s, mode).map(|r| r.bits)))
                 .collect();
-            handles.into_iter().map(|h| h.join().unwrap_or_else(|_| Err("sampler thread panicked".into()))).collect::<Vec<_>>()
+            let res = handles.into_iter().map(|h| h.join().unwrap_or_else(|_| Err("sampler thread panicked".into()))).collect::<Vec<_>>();
+            if let Some(n) = neighbour {
+                let _ = n.join();
+                // the failed neighbour leaves its detached reporter polling (DESIGN section 9, observation):
+                // the simulated process ends here
+                mcmc_sim::sim::process_exit();
+            }
+            res
         });
         o.sim_time_ns = rep.sim_time_ns;
         o.hash = mix(mix(rep.sched_hash, rep.event_hash), str_hash(&params.to_string()));
